@@ -70,13 +70,15 @@ class SimRaw(io.RawIOBase):
         self._mode = mode
         self._pos = 0
         self.name = path
-        self.mode = "rb" if mode == "r" else "wb"
+        self.mode = {"r": "rb", "w": "wb", "a": "ab"}[mode]
         bounds = REGIMES[fs.config.regime]
         self._bounds = bounds
         self._rng = core.stream(fs.config.io_seed, "io/%d" % open_index) if bounds else None
-        if mode == "w":
+        if mode == "w" or (mode == "a" and not isinstance(fs.files.get(path), bytearray)):
             fs.files[path] = bytearray()
         self._data = fs.files[path]
+        if mode == "a":
+            self._pos = len(self._data)
 
     def _chunk(self, wanted):
         if self._bounds is None or wanted <= 0:
@@ -89,7 +91,7 @@ class SimRaw(io.RawIOBase):
         return self._mode == "r"
 
     def writable(self):
-        return self._mode == "w"
+        return self._mode in ("w", "a")
 
     def seekable(self):
         return True
@@ -210,8 +212,8 @@ class SimFS(object):
         plain_mode = mode.replace("t", "")
         binary = "b" in plain_mode
         plain_mode = plain_mode.replace("b", "")
-        if plain_mode not in ("r", "w"):
-            raise ValueError("SimFS supports modes r and w only: %r" % mode)
+        if plain_mode not in ("r", "w", "a"):
+            raise ValueError("SimFS supports modes r, w and a only: %r" % mode)
         buffered = self.open_binary(path, plain_mode)
         if binary:
             return buffered
